@@ -1300,6 +1300,17 @@ class Interp:
                 isinstance(f.value, ast.Attribute) and \
                 f.value.attr == 'logger':
             return [(st, T.NONE)]       # logging: no effect on the protocol
+        # pure string methods on literals fold to literals
+        if recv is not None and isinstance(f, ast.Attribute) and \
+                recv[0] == 'c' and isinstance(recv[1], (str, bytes)) and \
+                f.attr in ('encode', 'decode', 'lower', 'upper', 'strip') \
+                and not kw and all(a[0] == 'c' and isinstance(a[1], (str, bytes))
+                                   for a in args):
+            try:
+                return [(st, T.C(getattr(recv[1], f.attr)(
+                    *[a[1] for a in args])))]
+            except Exception:       # the call itself raises: leave it
+                pass
         targets = self.r.resolve_call(e, st.fi)
         names = tuple(sorted(
             (t.fi.qual if t.kind == 'h2' and t.fi else
@@ -1321,7 +1332,13 @@ class Interp:
         h2 = [t for t in targets if t.kind in ('h2', 'h2class')]
         if h2 and len(h2) == len(targets):
             if all(t.kind == 'h2class' for t in h2):
-                return self._construct_h2(e, st, h2[0], args, kw)
+                # a class held in a local: the one this path put there
+                pick = h2[0]
+                if ft is not None and ft[0] == 'cls':
+                    for t in h2:
+                        if t.name == ft[1]:
+                            pick = t
+                return self._construct_h2(e, st, pick, args, kw)
             fis = [t.fi for t in h2 if t.fi is not None]
             return self._call_h2(e, st, fis, recv, args, kw, names)
         if len(targets) == 1:
